@@ -70,7 +70,7 @@ CLAIMED = {
                   '+ extracted-model correspondence + oracle on the implementation',
         design='5/C14'),
     'C03': dict(
-        text='UNBOUNDED on a fragment: for every document of one or more blank-line-separated trees - any size, any depth - of paragraphs of one or more lines whose delimiter characters, if any, are inert (* _ [ ] ! > & ( ) allowed wherever none can open or close anything: inert_para_b - no backslash, backtick, ~, <, $, {, |, no "](", no run of * or _ that can close, & and ; not both), one-line paragraphs with one emphasised phrase (text, a run of * or _ once or twice, words, the run again, text) or with one inline link (text, [words](destination), text; the destination a run of characters without white space, parentheses or a character a span finder needs); as inline theorems also ANY NUMBER of links in one sentence (C03_link_phrases) and sentences that MIX any number of emphasised phrases and links in any order (C03_mixed_phrases: the scanner with the phrases\' delimiters kept below the bracket, the pairing, Python\'s stable sort of the candidates into source order, the tokens), ATX headings, thematic breaks, fenced code blocks (` or ~, any length, any content), block quotes and lists of one or more items, each followed by a blank line or directly by the next (same bullet, or same delimiter with any numbers; an item followed by a blank line or holding two blocks is loose, the list is tight only if no item is) (all markers, padding 1-4; '
+        text='UNBOUNDED on a fragment: for every document of one or more blank-line-separated trees - any size, any depth - of paragraphs of one or more lines whose delimiter characters, if any, are inert (* _ [ ] ! > & ( ) allowed wherever none can open or close anything: inert_para_b - no backslash, backtick, ~, <, $, {, |, no "](", no run of * or _ that can close, & and ; not both), one-line paragraphs that mix any number of emphasised phrases and inline links in any order (leaf FSent), one-line paragraphs with one emphasised phrase (text, a run of * or _ once or twice, words, the run again, text) or with one inline link (text, [words](destination), text; the destination a run of characters without white space, parentheses or a character a span finder needs); as inline theorems also ANY NUMBER of links in one sentence (C03_link_phrases) and sentences that MIX any number of emphasised phrases and links in any order (C03_mixed_phrases: the scanner with the phrases\' delimiters kept below the bracket, the pairing, Python\'s stable sort of the candidates into source order, the tokens), ATX headings, thematic breaks, fenced code blocks (` or ~, any length, any content), block quotes and lists of one or more items, each followed by a blank line or directly by the next (same bullet, or same delimiter with any numbers; an item followed by a blank line or holding two blocks is loose, the list is tight only if no item is) (all markers, padding 1-4; '
              'siblings separated by a blank line, two lists never adjacent siblings) the block tokenizer of the model returns on the spelled text exactly the pre-token tree '
              'written from the tree (kinds, nesting, start lines, list attributes, loose flags), and Document(lines) - whose depth fuel is proved sufficient for the fragment - holds exactly the token tree written from the tree for every renderer\'s token sets, and the HTML renderer model writes for it exactly the HTML written directly from the tree (CommonMark layout, tight items without <p>, escaped text), also for the text given as one string; a second unbounded fragment - tight nested bullet lists written one item per line, any size and depth - is proved the same way down to the HTML (paragraph interrupted by its sub-list, items ended by the next sibling marker); the proof composes the quote law, the list law, blank-line independence '
              'and the plain-line theorem. Indented code blocks of any number of lines and any content, and setext headings (any number of plain lines, an underline of = or - of any length; at top level) and thematic breaks (three or more - _ * of any length) are proved separately down to the HTML (C03_indented_code_block, C03_setext_heading, C03_thematic_break). Beyond the fragment: kernel-checked on a finite family stated in the theorem (314 one-block trees with containers nested two deep '
@@ -134,7 +134,7 @@ CLAIMED = {
         technique='Coq proof (induction over word/fragment lists) + extracted-model correspondence; meaning clause by generator-oracle',
         design='5/C10'),
     'C09': dict(
-        text='PARTIAL. UNBOUNDED on a fragment: for every document of one or more blank-line-separated trees - any size and depth - of paragraphs of one or more lines whose delimiter characters, if any, are inert (* _ [ ] ! > & ( ) allowed wherever none can open or close anything: inert_para_b - no backslash, backtick, ~, <, $, {, |, no "](", no run of * or _ that can close, & and ; not both), one-line paragraphs with one emphasised phrase (text, a run of * or _ once or twice, words, the run again, text) or with one inline link (text, [words](destination), text; the destination a run of characters without white space, parentheses or a character a span finder needs), ATX headings, thematic breaks, fenced code blocks, block quotes and lists of one or more items, each followed by a blank line or directly by the next (same bullet, or same delimiter with any numbers; an item followed by a blank line or holding two blocks is loose, the list is tight only if no item is), '
+        text='PARTIAL. UNBOUNDED on a fragment: for every document of one or more blank-line-separated trees - any size and depth - of paragraphs of one or more lines whose delimiter characters, if any, are inert (* _ [ ] ! > & ( ) allowed wherever none can open or close anything: inert_para_b - no backslash, backtick, ~, <, $, {, |, no "](", no run of * or _ that can close, & and ; not both), one-line paragraphs that mix any number of emphasised phrases and inline links in any order (leaf FSent), one-line paragraphs with one emphasised phrase (text, a run of * or _ once or twice, words, the run again, text) or with one inline link (text, [words](destination), text; the destination a run of characters without white space, parentheses or a character a span finder needs), ATX headings, thematic breaks, fenced code blocks, block quotes and lists of one or more items, each followed by a blank line or directly by the next (same bullet, or same delimiter with any numbers; an item followed by a blank line or holding two blocks is loose, the list is tight only if no item is), '
              'parsing the spelled text with the Markdown renderer\'s token sets (model of Document(lines)) and rendering it without a line limit gives back exactly the text '
              '(C09_fragment_round_trip; hence same meaning, fixed point, exact normal form) with no side condition - the two the proof first forced (a fence is not empty, code lines do not begin with white space) were renderer defects and are repaired (fix: 50fc060, 1070095); '
              'the same identity is proved for tight nested bullet lists written one item per line (any size, depth, bullet, padding, indentation). Beyond these fragments, proved for ALL token trees about the Gallina model of the Markdown renderer: without a line limit the fragment texts are written '
